@@ -1,6 +1,6 @@
 /-
 C07 — the closed form `exp X · exp Y` of the Spec (coefficient `1/(a! b!)` on `X^a Y^b`) is the list product
-of the two truncated exponentials, degrees `≤ 8` (kernel computation).
+of the two truncated exponentials, degrees `≤ 7` (kernel computation).
 -/
 import OFV.Spec.C07BCH
 
@@ -9,10 +9,10 @@ namespace Proofs
 namespace C07
 open OFV.Spec.BCH
 
-theorem expXexpY_split (k : Nat) (hk : k ≤ 8) :
+theorem expXexpY_split (k : Nat) (hk : k ≤ 7) :
     expXexpY k = gmul k (gexp k (ginj k 1 [1, 0])) (gexp k (ginj k 1 [0, 1])) := by
-  have : k = 0 ∨ k = 1 ∨ k = 2 ∨ k = 3 ∨ k = 4 ∨ k = 5 ∨ k = 6 ∨ k = 7 ∨ k = 8 := by omega
-  rcases this with rfl | rfl | rfl | rfl | rfl | rfl | rfl | rfl | rfl <;> decide +kernel
+  have : k = 0 ∨ k = 1 ∨ k = 2 ∨ k = 3 ∨ k = 4 ∨ k = 5 ∨ k = 6 ∨ k = 7 := by omega
+  rcases this with rfl | rfl | rfl | rfl | rfl | rfl | rfl | rfl <;> decide +kernel
 
 end C07
 end Proofs
